@@ -26,6 +26,14 @@ pub fn dispatch(cmd: &str) -> Option<Handler> {
     })
 }
 
+
+/// The number a CSR operand was written with, read through the derived `Debug` text (`CsrImm(4160)`) and not
+/// through the accessor the analysis and the dump use: a fact is about the CSR that was written.
+fn csr_raw<T: std::fmt::Debug>(c: &T) -> u64 {
+    let t = format!("{c:?}");
+    t.chars().filter(char::is_ascii_digit).collect::<String>().parse().unwrap_or(u64::MAX)
+}
+
 fn idx(cfg: &Cfg, n: &Rc<CfgNode>) -> usize {
     cfg.nodes().iter().position(|m| Rc::ptr_eq(m, n)).unwrap_or(usize::MAX)
 }
@@ -53,8 +61,8 @@ pub fn show_aval(v: &AvailableValue) -> String {
         AvailableValue::OriginalRegisterWithScalar(r, o) => format!("ors:{}:{o}", r.to_num()),
         AvailableValue::MemoryAtRegister(r, o) => format!("mr:{}:{o}", r.to_num()),
         AvailableValue::MemoryAtOriginalRegister(r, o) => format!("omr:{}:{o}", r.to_num()),
-        AvailableValue::ValueInCsr(c) => format!("vc:{}", c.value()),
-        AvailableValue::MemoryAtCsr(c, o) => format!("mc:{}:{o}", c.value()),
+        AvailableValue::ValueInCsr(c) => format!("vc:{}", csr_raw(c)),
+        AvailableValue::MemoryAtCsr(c, o) => format!("mc:{}:{o}", csr_raw(c)),
     }
 }
 
@@ -67,8 +75,8 @@ fn show_regmap(m: &AvailableValueMap<Register>) -> String {
 pub fn show_memloc(l: &MemoryLocation) -> String {
     match l {
         MemoryLocation::StackOffset(o) => format!("so:{o}"),
-        MemoryLocation::CsrRegister(c) => format!("csr:{}", c.value()),
-        MemoryLocation::CsrRegisterValueOffset(c, o) => format!("csro:{}:{o}", c.value()),
+        MemoryLocation::CsrRegister(c) => format!("csr:{}", csr_raw(c)),
+        MemoryLocation::CsrRegisterValueOffset(c, o) => format!("csro:{}:{o}", csr_raw(c)),
     }
 }
 
